@@ -274,6 +274,13 @@ def build(model, **kw):
         ann = None
         if c.get("annotate"):
             ann = {"class": [A.Annotation(1, "Ljava/lang/Deprecated;", [])]}
+        sv = None
+        if c.get("xann") or c.get("xstatic") is not None:      # harness/dexx.py: explicit static values / annotations
+            from harness import dexx as X
+            if c.get("xann"):
+                ann = X.to_annotations(c["xann"])
+            if c.get("xstatic") is not None:
+                sv = [X.to_tuple(v) for v in c["xstatic"]]
         b.add_class(
             c["name"], superclass=c["super"], interfaces=c["interfaces"], access=c["access"],
             source_file=c["source"],
@@ -281,7 +288,7 @@ def build(model, **kw):
             instance_fields=[A.Field(f[0], f[1], f[2]) for f in c["ifields"]],
             direct_methods=[A.Method(m[0], m[1], tuple(m[2]), m[3], _mk_code(m[4])) for m in c["dmethods"]],
             virtual_methods=[A.Method(m[0], m[1], tuple(m[2]), m[3], _mk_code(m[4])) for m in c["vmethods"]],
-            annotations=ann)
+            annotations=ann, static_values=sv)
     opts = dict(model.get("build", {}))
     opts.update(kw)
     em = opts.pop("extra_map", None)
